@@ -29,6 +29,7 @@ class Inp:
         self.value = None         # 'acc <tree>' | 'none' | 'panic …' | 'lexerr' | 'hang'
         self.ms = 0
         self.odd_lexemes = 0      # leaves that are faulty xor zero-length
+        self.misplaced_inserts = 0  # inserted (zero-length) leaves that are not at the start of the next real lexeme
         self.costs_first = None   # BO section: True = the harness called .term_costs(..) BEFORE .recoverer(..) for this input
         self.model = {}           # facts of the J section
         self.model_value = None
@@ -82,6 +83,8 @@ class RepResult:
                 cur.value = " ".join(s[1:])
             elif k == "ZL" and cur is not None:
                 cur.odd_lexemes = int(s[1])
+            elif k == "ZP" and cur is not None:
+                cur.misplaced_inserts = int(s[1])
             elif k == "TM" and cur is not None:
                 cur.ms = int(s[1])
         self.verdict = {}
